@@ -61,9 +61,18 @@ def check_int24(ctx, w):
         init = w.model.func(CU, cls + '.__init__')
         ok = 'StaticField.__init__(self, name, 3)' in U(init.node)
         ctx.ob('L-INT24', init.construct, 'three bytes', ok, msg='24-bit integer does not read exactly 3 bytes')
+        # the bytes come from the exact-length primitive (StaticField._parse -> _read_stream: FieldError on a short read), never
+        # from a bare stream.read, whatever is done with them afterwards
+        bare = [c for c in ast.walk(f.node) if isinstance(c, ast.Call) and isinstance(c.func, ast.Attribute) and c.func.attr == 'read' and
+                isinstance(c.func.value, ast.Name) and c.func.value.id == 'stream']
+        exact = [c for c in ast.walk(f.node) if isinstance(c, ast.Call) and U(c.func) in ('StaticField._parse', 'super()._parse', '_read_stream')]
+        ctx.ob('L-INT24', f.construct, 'bytes read through the exact-length primitive', bool(exact) and not bare, got=[U(c) for c in bare + exact],
+               msg='a 24-bit field read with a bare stream.read decodes a truncated field to a smaller number instead of failing with FieldError')
         asg = [n for n in ast.walk(f.node) if isinstance(n, ast.Assign) and isinstance(n.targets[0], ast.Tuple)]
         if len(asg) != 1:
-            raise AnalysisError('L-INT24', f.construct, 'unpack assignment not found')
+            if exact and not bare:
+                raise AnalysisError('L-INT24', f.construct, 'unpack assignment not found')
+            continue
         names = [e.id for e in asg[0].targets[0].elts]
         call = asg[0].value
         pk = call.func.value.id if isinstance(call.func, ast.Attribute) and isinstance(call.func.value, ast.Name) else None
